@@ -139,6 +139,11 @@ impl QuicConnector {
 
     async fn get_connection(self: &Arc<Self>) -> Result<QuicConn, Error> {
         let mut c = self.connection.lock().await;
+        // a cached connection that is known to be closed (idle timeout, closed by the peer) is of no use
+        if matches!(&*c, Some((conn, _)) if conn.close_reason().is_some()) {
+            debug!("{}: cached connection is closed", self.name);
+            *c = None;
+        }
         #[cfg(redproxy_verif)]
         let was_none = c.is_none();
         if c.is_none() {
